@@ -242,6 +242,26 @@ def selector_identity(ctx, P, fi=None):
     for n in walk_no_nested(fi.node):
         if isinstance(n, ast.Assign) and any(norm(t) == "self.farg" for t in n.targets):
             v = n.value
+            if isinstance(v, ast.Call) and norm(v.func) == "slice":
+                # an index list replaced by a slice: legal exactly when the list IS the ascending run first..last, which
+                # only an element-by-element witness establishes (every difference is 1 / equality with the range);
+                # a test on the end points and the length also admits permuted and repeated lists
+                from vk.model import parents as _parents
+                pm_ = _parents(fi.node)
+                tests, cur = [], n
+                while cur in pm_:
+                    cur = pm_[cur]
+                    if isinstance(cur, ast.If):
+                        tests.append(norm(cur.test))
+                wit = any(("np.diff(" in t and "== 1" in t and ("all(" in t)) or ("array_equal(" in t and ("arange(" in t or "range(" in t))
+                          or ("== list(range(" in t) for t in tests)
+                ctx.check(wit, f"{P}.SELECTOR-IDENTITY", site,
+                          "an index list is turned into a slice only under an element-by-element test that it is that run",
+                          f"the stream's field selector (a list) is rebuilt as `{norm(v)}` under `{' and '.join(tests) or 'no condition'}`: "
+                          f"that does not establish that the list is the ascending run - a permuted or repeated list of the same "
+                          f"span ([0, 2, 1, 3], [1, 1, 3]) passes and the readers then return fields first..last in file order, "
+                          f"not the requested ones", key="farg:slice", where=loc(fi, n), semantic=True)
+                continue
             chain = []
             while isinstance(v, ast.Call) and v.args:
                 chain.append(norm(v.func))
